@@ -55,14 +55,16 @@ CLAIMED = {
             'strings: escape/parse round trip of text and attribute values and no markup in escaped data; for ALL well-formed element trees: '
             'reading the serialisation gives back exactly the tree (no caller string can add, remove or re-parent an element), incl. the <rpc> '
             'envelope and its message-id; and for ALL argument values of the base-namespace operations (Model/Builders, compared with the real Manager byte '
-            'for byte on random arguments): what is built is well-formed, read back exactly, in RFC order, with option values inside their enumerations. Modelled, not verified: lxml serialisation and an XML reader (compared byte for byte / tree for tree '
+            'for byte on random arguments): what is built is well-formed, read back exactly, in RFC order, with option values inside their enumerations; likewise for the '
+            'retrieval builders (Model/Retrieve: get / get-config with XPath / subtree / list / element filters and with-defaults, dispatch, create-subscription). Modelled, not verified: lxml serialisation and an XML reader (compared byte for byte / tree for tree '
             'with lxml and expat each run).',
             NOTE + 'parametricity of request builders in their string arguments is sampled (26 templates x nasty strings per run, each call issued twice), not proved.', 'DESIGN.md 5/C07'),
     'C09': (T + ': finite gating table (decide +kernel) + gate semantics for all capability lists',
             'Proved: over the regenerated operation table the capabilities each call asserts are exactly the documented dependencies, a '
             'capability-dependent element or value (confirmed, persist, test-option, test-only, rollback-on-error, with-defaults) is on the wire '
             'only if its capability was asserted - whatever spelling of the argument produced it -; for ALL argument values (Model/Builders): a request is built '
-            'only if every capability its arguments depend on is present, else nothing is built; every '
+            'only if every capability its arguments depend on is present, else nothing is built; (Model/Retrieve) a with-defaults mode is on the wire only if the '
+            'server\'s own with-defaults capability URI lists it (basic-mode / also-supported), :url sources and :notification likewise; every '
             'documented dependency was probed with the capability removed and was refused (MissingCapabilityError / WithDefaultsError) with '
             'nothing sent; for ALL capability lists: the gate refuses iff a required capability is not contained (C08 gives what contained '
             'means, both URN forms) and the with-defaults mode check accepts iff the mode is the basic or an also-supported mode.',
